@@ -11,7 +11,7 @@ import (
 
 func init() {
 	register("C08", propMeta{
-		Explanation: "E-GUARD + E-CONST + E-PANIC. O-1 stripping dominates every export: the description serialised in BrokerChannel.Negotiate and SignalingServer.sendAnswer is, on every path not behind the true edge of the respective keepLocalAddresses flag, a fresh description whose SDP is util.StripLocalAddresses of the original; probetest strips unconditionally; the flag fields are written only from the configuration. O-2 range table = RFC table: util.IsLocal is read as a disjunction of conjunctions of byte tests (b[k] == c, b[k] & m == c) over ip.To4() and the 16-byte ip; each true path is converted syntactically to a CIDR prefix and the resulting set is compared with {10/8, 172.16/12, 192.168/16, 100.64/10, 169.254/16, fc00::/7}. O-3 filter shape: in the candidate loop of StripLocalAddresses the skip is reachable only through IsICECandidate, a successful UnmarshalCandidate, Type() == host, ParseIP != nil and one of IsLocal/IsUnspecified/IsLoopback (all three occur); every other path appends the loop's attribute; each media section gets a slice made inside its own iteration; parse/marshal errors return the input unchanged. O-4 no termination construct reachable from StripLocalAddresses/IsLocal, and every constant index into an address is behind an edge that establishes its length (To4() != nil, len(ip) == 16). O-2 is evaluated exactly since the second seeding round: byte tests including < and <= ranges become value sets, each feasible true path a product of per-byte sets, and the union is compared with the table over all 65536 leading IPv4 byte pairs and 256 leading IPv6 bytes. Added after the third seeding round: ice.UnmarshalCandidate receives the attribute value itself (no trimming or re-formatting); the caller's string is returned only on error edges, never as a 'nothing removed' shortcut decided per media section. Added after the fifth seeding round: IsLocal consulting a library predicate whose range reaches beyond the table (IsLinkLocalUnicast: fe80::/10, multicast, global unicast) is a violation.",
+		Explanation: "E-GUARD + E-CONST + E-PANIC. O-1 stripping dominates every export: the description serialised in BrokerChannel.Negotiate and SignalingServer.sendAnswer is, on every path not behind the true edge of the respective keepLocalAddresses flag, a fresh description whose SDP is util.StripLocalAddresses of the original; probetest strips unconditionally; the flag fields are written only from the configuration. O-2 range table = RFC table: util.IsLocal is read as a disjunction of conjunctions of byte tests (b[k] == c, b[k] & m == c) over ip.To4() and the 16-byte ip; each true path is converted syntactically to a CIDR prefix and the resulting set is compared with {10/8, 172.16/12, 192.168/16, 100.64/10, 169.254/16, fc00::/7}. O-3 filter shape: in the candidate loop of StripLocalAddresses the skip is reachable only through IsICECandidate, a successful UnmarshalCandidate, Type() == host, ParseIP != nil and one of IsLocal/IsUnspecified/IsLoopback (all three occur); every other path appends the loop's attribute; each media section gets a slice made inside its own iteration; parse/marshal errors return the input unchanged. O-4 no termination construct reachable from StripLocalAddresses/IsLocal, and every constant index into an address is behind an edge that establishes its length (To4() != nil, len(ip) == 16). O-2 is evaluated exactly since the second seeding round: byte tests including < and <= ranges become value sets, each feasible true path a product of per-byte sets, and the union is compared with the table over all 65536 leading IPv4 byte pairs and 256 leading IPv6 bytes. Added after the third seeding round: ice.UnmarshalCandidate receives the attribute value itself (no trimming or re-formatting); the caller's string is returned only on error edges, never as a 'nothing removed' shortcut decided per media section. Added after the fifth seeding round: IsLocal consulting a library predicate whose range reaches beyond the table (IsLinkLocalUnicast: fe80::/10, multicast, global unicast) is a violation. Added after the sixth seeding round and the mutation audit: the raw description may arrive only over the keep edge itself (the other branch of the same test no longer counts: an inverted flag test was accepted before); the keepLocalAddresses fields are fed from the KeepLocalAddresses option or a constant at every call site; a StripLocalAddresses without an append of kept attributes is a violation.",
 		NotDecided:  "pion/sdp and pion/ice parsing and re-marshalling fidelity ('every other field preserved') - third-party; IPv4-mapped spellings (handled by To4, stdlib).",
 		Assumptions: []string{"net.IP.To4 returns nil or a 4-byte slice", "third-party SDP/ICE code does not panic"},
 	}, runC08)
@@ -47,15 +47,15 @@ func runC08(c *Ctx) {
 			arg := ci.Common().Args[0]
 			key := w.rel + "." + w.fn + " serialises a stripped description unless local addresses are kept"
 			bad := ""
-			var check func(v ssa.Value, at *ssa.BasicBlock, depth int)
-			check = func(v ssa.Value, at *ssa.BasicBlock, depth int) {
+			var check func(v ssa.Value, at, to *ssa.BasicBlock, depth int)
+			check = func(v ssa.Value, at, to *ssa.BasicBlock, depth int) {
 				if depth > 4 {
 					bad = "description provenance too deep"
 					return
 				}
 				if ph, ok := v.(*ssa.Phi); ok {
 					for i, e := range ph.Edges {
-						check(e, ph.Block().Preds[i], depth+1)
+						check(e, ph.Block().Preds[i], ph.Block(), depth+1)
 					}
 					return
 				}
@@ -71,7 +71,9 @@ func runC08(c *Ctx) {
 				// raw: only behind keep == true (the phi edge itself may be the keep edge)
 				viaKeep := false
 				for _, e := range keep {
-					if e.From == at && at != ci.Block() {
+					// the edge over which the raw value arrives must be the keep edge itself, not the other
+					// branch of the same test
+					if e.From == at && at != ci.Block() && to != nil && e.To() == to {
 						viaKeep = true
 					}
 				}
@@ -79,7 +81,7 @@ func runC08(c *Ctx) {
 					bad = "the unstripped description reaches the serialiser on a path that does not require keepLocalAddresses"
 				}
 			}
-			check(arg, ci.Block(), 0)
+			check(arg, ci.Block(), nil, 0)
 			c.check(bad == "", rule1, key, p.instrPos(ci), "", bad+": private, CGNAT, link-local, ULA, loopback or unspecified host candidates are sent to the broker")
 		}
 		if n == 0 {
@@ -114,6 +116,46 @@ func runC08(c *Ctx) {
 				bad++
 				c.viol(rule1, p.FnName(s.Parent())+" rewrites "+w.typ+".keepLocalAddresses", p.instrPos(s), "the keep-local-addresses flag is changed after construction")
 			}
+		}
+		// ... and from the option of that name (two boolean options side by side are easily confused)
+		for _, s := range storesToField(p.FnsIn(w.rel), f) {
+			fromOpt, other := false, ""
+			// the value, or what every non-test caller passes for it
+			vals := []ssa.Value{s.Val}
+			if par, isPar := strip(s.Val).(*ssa.Parameter); isPar {
+				vals = nil
+				for i, fp := range par.Parent().Params {
+					if fp != par {
+						continue
+					}
+					for _, ci := range p.realCallers(par.Parent()) {
+						if i < len(ci.Common().Args) {
+							vals = append(vals, ci.Common().Args[i])
+						}
+					}
+				}
+			}
+			nonConst := 0
+			for _, val := range vals {
+				if k, isK := strip(val).(*ssa.Const); isK && k.Value != nil {
+					continue // a constant (the NAT probe never keeps them) is not an option mix-up
+				}
+				nonConst++
+				flows(val, func(v ssa.Value) bool {
+					if _, fl, ok := fieldLoad(v); ok {
+						if fl.Name() == "KeepLocalAddresses" {
+							fromOpt = true
+						} else if b, isB := fl.Type().Underlying().(*types.Basic); isB && b.Kind() == types.Bool {
+							other = fl.Name()
+						}
+					}
+					return false
+				})
+			}
+			if nonConst == 0 {
+				continue
+			}
+			c.check(fromOpt && other == "", rule1, p.FnName(s.Parent())+" takes "+w.typ+".keepLocalAddresses from the KeepLocalAddresses option", p.instrPos(s), "", "the flag that switches the stripping off is not (only) the KeepLocalAddresses option"+map[bool]string{true: " but " + other, false: ""}[other != ""]+": with that other option set and this one unset, local addresses are sent to the broker")
 		}
 		if bad == 0 {
 			c.ok(rule1, w.typ+".keepLocalAddresses is set only at construction", p.Pos(f.Pos()), "")
@@ -589,7 +631,7 @@ func (c *Ctx) checkStripFilter(fn, isLocal *ssa.Function) {
 		app, _ = ci.(*ssa.Call)
 	}
 	if app == nil {
-		c.undecided(rule, "StripLocalAddresses appends kept attributes", p.Pos(fn.Pos()), "no append")
+		c.viol(rule, "StripLocalAddresses appends kept attributes", p.Pos(fn.Pos()), "the function no longer builds each media section's attribute list from the attributes it keeps (no append): the result is not the parsed description minus the local candidates (a textual cut depends on the spelling of the input, for example its line terminators)")
 		return
 	}
 	// innermost natural loop containing the append: back edge T->H with H dominating the append's block
